@@ -273,8 +273,11 @@ func matchValue(obs interface{}, allowed interface{}, inexact bool) bool {
 			}
 		}
 		return true
+	case "expref":
+		// the library's expression-reference object (not JSON data; only outside C16's precondition)
+		return strings.HasSuffix(fmt.Sprintf("%T", obs), ".expRef")
 	}
-	return false // expref, nonfinite, unknown tags: never a JSON result
+	return false // nonfinite, unknown tags: never a result
 }
 
 // Observation of one call of the real API.
